@@ -221,7 +221,7 @@ def run_histories(chk, consts):
     rng = chk.rng
     quick = chk.tier == "quick"
     histories = [("directed", [tuple(o) for o in h]) for h in DIRECTED]
-    for n, maxlen in ((1, 4), (2, 4)) if quick else ((1, 5), (2, 5), (3, 4)):
+    for n, maxlen in ((1, 4), (2, 3)) if quick else ((1, 5), (2, 5), (3, 4)):
         histories += [("exhaustive", h) for h in exhaustive_histories(n, maxlen)]
     for kind, cnt in (("valid", 250), ("adversarial", 250), ("raw", 80)) if quick else (("valid", 4000), ("adversarial", 4000), ("raw", 1200)):
         histories += [(kind, rand_history(rng, kind)) for _ in range(cnt)]
@@ -312,11 +312,24 @@ def run_handover(chk, consts):
                 trace = []
                 for act in script:
                     if act[0] == "complete":
-                        if not os.path.exists(os.path.join(w.out, "output-stage%d" % act[1])):
+                        if not os.path.exists(os.path.join(w.out, "output-stage%d" % act[1], "cluster_config.json")):
                             continue
                         before = w.read_state()
+                        first_completion = ("mark", act[1]) not in w.events
                         out, psn = w.complete_stage(act[1], with_results=act[2])
                         trace.append((act, out, w.read_state()))
+                        # progress oracle (the environment is cooperative in these scenarios): the first completion of
+                        # stage k submits stage k+1, or completes the pipeline if k was the last stage
+                        if isinstance(out, int) and first_completion and env == G:
+                            st = w.read_state()
+                            k = act[1]
+                            if (k < n and ("submit", k + 1) not in w.events) or (k == n and not (st and st[2])):
+                                chk.violation("no-progress-after-completion",
+                                              f"stage {k} of {n} completed (first time) but " +
+                                              (f"stage {k + 1} was not submitted" if k < n else "the pipeline was not marked complete"),
+                                              {"component": "JobSubmitter._handle_completion -> jade pipeline submit-next-stage",
+                                               "stages": n, "autos": autos, "script": script, "events": list(w.events),
+                                               "final_pipeline_json": st})
                         if not isinstance(out, int):
                             chk.tie_broken("hand-over: _handle_completion raised", json.dumps({"scenario": [n, autos, script], "raised": out}))
                             break
@@ -325,6 +338,8 @@ def run_handover(chk, consts):
                         if before == w.read_state():
                             dist["rejected_second_completions"] += 1
                     else:
+                        if ("mark", act[1]) not in w.events:
+                            continue
                         w.resubmit_stage(act[1])
                         sys_ops.append(f"(SysResubmit {drv.cZ(act[1])})")
                         dist["resubmissions"] += 1
